@@ -84,7 +84,10 @@ func graphProgram(id string, nodes []GNode, root int, unreferenced bool) *Progra
 //	2 two set variables by node parity, combined by SetG together with one unrelated local provider
 //	3 a chain Sub0 ⊃ Sub1 ⊃ ..., every level adding the sources of one residue class mod 3
 //	4 like 1, but the injector lists the sub-sets directly in wire.Build (no combining variable)
-const graphLayouts = 5
+//	5 Base holds every source that is not a binding; SetG = NewSet(Base, bindings...) adds only the
+//	  bindings (an including set may bind what an included set provides)
+//	6 like 5, but the injector lists Base and the bindings directly in wire.Build
+const graphLayouts = 7
 
 func graphProgramLayout(id string, nodes []GNode, root int, unreferenced bool, layout int) *Program {
 	nodes = normalizeGraph(nodes)
@@ -197,6 +200,20 @@ func graphProgramLayout(id string, nodes []GNode, root int, unreferenced bool, l
 			inner = b.Set(0, name, ms...)
 		}
 		s = inner
+	case 5, 6:
+		var base, binds []Ref
+		for j := 0; j < n; j++ {
+			if nodes[j].Kind == "bind" {
+				binds = append(binds, members[j])
+			} else {
+				base = append(base, members[j])
+			}
+		}
+		if len(base) > 0 {
+			bs := b.Set(0, "Base", base...)
+			s = b.Set(0, "SetG", append([]Ref{SetRef(bs.ID)}, binds...)...)
+			buildRefs = append([]Ref{SetRef(bs.ID)}, binds...)
+		}
 	default:
 		s = b.Set(0, "SetG", members...)
 	}
@@ -220,6 +237,23 @@ func graphProgramLayout(id string, nodes []GNode, root int, unreferenced bool, l
 					}
 				}
 			}
+		}
+		b.Inj("Init", tys[root], false, false, nil, need...)
+	} else if layout == 6 && len(buildRefs) > 0 {
+		// Base and the bindings the result needs (a binding nothing asks for is rightly unused)
+		reach := graphReach(nodes, root)
+		need := []Ref{buildRefs[0]}
+		all := true
+		for j := 0; j < n; j++ {
+			if nodes[j].Kind == "bind" && reach[j] {
+				need = append(need, members[j])
+			} else if nodes[j].Kind == "bind" {
+				all = false
+			}
+		}
+		if !all {
+			// the verdict is stated for the whole graph: keep every source in the injector's set
+			need = []Ref{SetRef(s.ID)}
 		}
 		b.Inj("Init", tys[root], false, false, nil, need...)
 	} else {
@@ -482,7 +516,7 @@ func CheckC07(e *Env) int {
 	// acyclic well-formed programs in which the planner's own table of visited types must agree
 	// with the provider map on type identity (a type met under two spellings, an argument
 	// reached under the other spelling): the planner re-queues a type it cannot find
-	tprogs := spellingTwinsFamily()
+	tprogs := append(spellingTwinsFamily(), permutedSignatureFamily()...)
 	for _, pr := range RunPool(e, tprogs, PoolOpts{Name: "c07t", BatchSize: 64, AlsoCheck: true, ExtraEnv: []string{"VERIF_STEP_CAP=400"}}) {
 		fam := "well-formed/" + pr.P.Feat["family"]
 		switch {
@@ -496,6 +530,8 @@ func CheckC07(e *Env) int {
 				clause = "step cap exceeded: analysis did not terminate within its budget"
 			}
 			rep.Violate(pr.P.ID, Issue{Prop: "C07", Clause: clause, Witness: pr.Crash, Sig: "C07:" + clause + ":" + fam}, pr.P.Files(false), map[string]string{"wire_stderr.txt": pr.GenStderr})
+		case strings.Contains(pr.GenStderr, "cycle for") && strings.Contains(pr.GenStderr, pr.P.ID+"/"):
+			rep.Violate(pr.P.ID, Issue{Prop: "C07", Clause: "acyclic program reported as cyclic", Witness: tail(pr.GenStderr, 1500), Sig: "C07:false-cycle:" + fam}, pr.P.Files(false), map[string]string{"wire_stderr.txt": pr.GenStderr})
 		default:
 			rep.Count("acyclic_wellformed_programs_terminated", 1)
 			rep.Held(fam + ";" + pr.P.Feat["cell"])
